@@ -11,12 +11,62 @@ NOTE = ("Trusted: Coq 8.16.1 kernel (+vm_compute), extraction with ExtrOcamlBasi
         "tables and differential correspondence; theorems are about the model.")
 
 CHECKS = {
+    'C01': dict(
+        text="Coq theorems about the Gallina model of the markup parser: for ALL flat statements (any number of elements, any "
+             "mix of > + ^ runs) the preorder depth list of the parsed tree equals the depth-counter denotation of the operators "
+             "(parser spine invariant), and the implicit-name decision rule proved over the table regenerated from the source. "
+             "_partial: groups, repeater unrolling and formatter tag events are covered by the whole-pipeline model/implementation "
+             "correspondence and by an independent denotation oracle on expand() output, not by a theorem yet.",
+        technique="Coq proof by induction over statements with a parser-spine invariant + generated ELEMENT_MAP table + whole-pipeline model/implementation correspondence and denotation oracle",
+        ref="DESIGN.md §5 C01"),
+    'C09': dict(
+        text="Coq theorems: match/balanced_outward/balanced_inward as folds over scanner events return the innermost element, the "
+             "enclosing chain and the first-child chain for every well-nested forest (unbounded), attribute ranges are exact; "
+             "public entry points composed with the scanner model. Scanner-level rendering theorem is partial (correspondence over "
+             "generated documents with ground truth at every position).",
+        technique="Coq proof by induction over forests with a stack invariant (events fold) + model/implementation correspondence on generated documents with ground truth",
+        ref="DESIGN.md §5 C09"),
+    'C10': dict(
+        text="Coq theorems: CSS match/balanced_outward/balanced_inward over scanner events equal innermost rule/declaration, chain and "
+             "first-child chain for all well-formed rule trees with ;-terminated declarations; events of trees are ordered. Scanner "
+             "level tied by correspondence on generated stylesheets with ground truth at every position. One known finding "
+             "(delimiters inside parentheses).",
+        technique="Coq proof by induction over rule trees (events fold with selector stack invariant) + model/implementation correspondence on generated stylesheets with ground truth",
+        ref="DESIGN.md §5 C10"),
+    'C11': dict(
+        text="Coq theorems for all lines, positions and options: extract result consistency (slice, bounds, no dangling operator, "
+             "prefix placement, look-ahead bound); round trip for the stated grammar after start of line / whitespace / complete HTML "
+             "tag proved for abbreviations free of the three listed finding shapes (_partial), with refutation witnesses for those shapes.",
+        technique="Coq proof by induction over the backward scan with bracket stack + generated char tables + model/implementation correspondence",
+        ref="DESIGN.md §5 C11"),
+    'C16': dict(
+        text="Coq theorems for ALL strings and positions (Z): HTML and CSS scanner events are well-formed ranges inside the source, "
+             "ordered; tag ranges start with < and end with >; folds (match/outward/inward) well-formed, match = head of outward, strict "
+             "nesting; attributes and split_value ranges well-formed; no internal error in the models. Tied by exhaustive short-string "
+             "and random/mutated-document correspondence at positions -1..len+1.",
+        technique="Coq proof by structural induction over the input (skip-counter scanner models) and over event lists + exhaustive short-string correspondence",
+        ref="DESIGN.md §5 C16"),
+    'C17': dict(
+        text="Coq theorems: get_open_tag soundness/completeness, next/previous item selection and selection-model ranges for HTML; "
+             "get_css_section, direct declarations with name/value/token/before/after offsets, select_item_css ranges for CSS, over the "
+             "event/token models; tied by correspondence on generated documents with ground truth at every position. One known finding "
+             "(brace-terminated declaration full range).",
+        technique="Coq proof over scanner-event and attribute-token models + model/implementation correspondence on generated documents with ground truth",
+        ref="DESIGN.md §5 C17"),
     'C18': dict(
-        text="Machine-checked Coq theorems (tiling, error position inside input, losslessness) for all strings about a "
-             "Gallina model of the tokenizers; model tied to the code by differential correspondence on exhaustive short "
-             "strings and random strings; a direct tiling oracle on the implementation finds the failing input when they diverge.",
+        text="Machine-checked Coq theorems (tiling, error position inside input, losslessness, merge_tokens preserves tiling) for all "
+             "strings about Gallina models of both tokenizers (markup; stylesheet in property and value mode); models tied to the code by "
+             "differential correspondence on exhaustive short strings and random strings; a direct tiling oracle on the implementation "
+             "finds the failing input when they diverge.",
         technique="Coq proof by structural induction over the input (skip-counter tokenizer model) + model/implementation correspondence",
         ref="DESIGN.md §5 C18"),
+    'C19': dict(
+        text="Coq theorems: order_tokens yields the postfix of the regrouped expression tree for every expression of the documented "
+             "grammar, the stack evaluator computes its value over Q (evaluate_correct), malformed input yields only the parse error or "
+             "ZeroDivision (parse_errors_only, parse_sound), extract ranges are well-formed; operator tables regenerated from source. "
+             "Float rounding/range is outside the model (three listed float-range findings).",
+        technique="Coq proof (shunting-yard invariant by induction over expression trees, stack-machine evaluation over Q) + generated priority tables + exhaustive token-sequence correspondence",
+        ref="DESIGN.md §5 C19"),
 }
 
 PENDING_REASON = "not claimed yet: model/theorems for this property are not built at this commit (see DESIGN.md §8 build order)"
